@@ -161,7 +161,12 @@ func (x *executor) timeIntrinsic(m *machine, fr *frame, in ssa.Instruction, res 
 			app("*", "Int", args[5].t, atom("1000000000", "Int")), args[6].t)
 		return ret(c.mkTime(ns, tTrue), timeT())
 	case "time.Since":
-		panic(unsupported("time.Since"))
+		// elapsed time: any duration (the clock is not related to the argument)
+		dt := fn.Signature.Results().At(0).Type()
+		v := c.d.fresh("since", c.sortOf(dt))
+		st.assume(x.valueWF(v, dt))
+		x.note("time.Since() returns an arbitrary duration")
+		return ret(v, dt)
 	}
 	_ = token.ADD
 	return false
